@@ -1,4 +1,10 @@
-HOOK_COMMITS = ['ef609ce', '7110088', 'd1dc178', 'af3bff4', '854d330', '3bc5d99', 'de2fe24', '9cea780', 'e1698dc']
+import subprocess
+def _hook_commits():
+    # every commit of /repo whose subject starts with "verif:" (hooks are add-only files under the build tag verif,
+    # plus the constant-false rewrite gates); oldest first
+    out = subprocess.check_output(["git", "-C", "/repo", "log", "--reverse", "--format=%h %s"], text=True)
+    return [l.split()[0] for l in out.splitlines() if l.split(" ", 1)[1].startswith("verif:")]
+HOOK_COMMITS = _hook_commits()
 ALL = ["C%02d" % i for i in range(1, 21)]
 def not_applicable(claimed):
     return [{"property_id": p, "reason": "check under construction in this build round (see DESIGN.md §10 staging); will be claimed once its theorem file and correspondence leg are committed"}
